@@ -9,19 +9,19 @@ import (
 )
 
 type FuncReport struct {
-	Func      string   `json:"func"`
-	File      string   `json:"file"`
-	Contract  string   `json:"contract"`
-	Modes     []string `json:"modes"`
-	Dropped   []string `json:"dropped_by_extraction,omitempty"`
-	Externs   []string `json:"externs,omitempty"`
-	Inlined   []string `json:"inlined,omitempty"`
-	Havocs    []string `json:"havocked_calls,omitempty"`
-	Notes     []string `json:"notes,omitempty"`
-	Assumes   []string `json:"assumes,omitempty"`
-	Errors    []string `json:"errors,omitempty"`
+	Func      string            `json:"func"`
+	File      string            `json:"file"`
+	Contract  string            `json:"contract"`
+	Modes     []string          `json:"modes"`
+	Dropped   []string          `json:"dropped_by_extraction,omitempty"`
+	Externs   []string          `json:"externs,omitempty"`
+	Inlined   []string          `json:"inlined,omitempty"`
+	Havocs    []string          `json:"havocked_calls,omitempty"`
+	Notes     []string          `json:"notes,omitempty"`
+	Assumes   []string          `json:"assumes,omitempty"`
+	Errors    []string          `json:"errors,omitempty"`
 	Observe   map[string]string `json:"-"`
-	NumObs    int      `json:"obligations"`
+	NumObs    int               `json:"obligations"`
 	obs       []*Obligation
 	ToolError bool `json:"tool_error,omitempty"`
 }
